@@ -63,6 +63,9 @@ def shapes(tier, seed):
     for which in ('X-Amz-SignedHeaders', 'X-Amz-Signature', 'X-Amz-Security-Token', 'X-Amz-Algorithm'):
         for n in (0, 2, 3):
             out.append(('qvalue', which, n))
+    for where in ('path', 'query', 'form'):
+        for k in (0, 1, 2):
+            out.append(('pct-utf8', where, k))
     out.append(('fold-contract',))
     out.append(('fold-body', 3))
     for b in ('SigV4AuthenticatorBuilder', 'GetSigningKeyRequestBuilder', 'GetSigningKeyResponseBuilder', 'SigV4AuthenticatorResponseBuilder'):
@@ -109,6 +112,7 @@ def run_shape(prog, shape, tier, seed, res):
     kind = shape[0]
 
     def pipeline(m, rq, opts=None, reqs=None):
+        m.ctx.x_rq = (rq, opts)
         prov = provider_ok(conc_bytes(bytes(32)))
         r, _ = run(m, rq, 'us-east-1', 'service', prov, instant(T0), reqs, opts)
         return outcome(r)[0:2]
@@ -186,6 +190,29 @@ def run_shape(prog, shape, tier, seed, res):
                 q += conc_bytes(n + '=') + list(val)
             rq = Req('GET', b'/', q, [('host', conc_bytes('h'))])
             return rq, pipeline(m, rq)
+        if kind == 'pct-utf8':
+            # '%' + k hex digits + a 2-byte UTF-8 scalar + one more byte: malformed escapes around a non-ASCII character
+            _, where, k = shape
+            b0 = ctx.fresh_bv('u0', 8)
+            b1 = ctx.fresh_bv('u1', 8)
+            ctx.assume(z3.And(z3.UGE(b0, 0xC2), z3.ULE(b0, 0xDF), z3.UGE(b1, 0x80), z3.ULE(b1, 0xBF)))
+            hexd = []
+            for i in range(k):
+                hb = ctx.fresh_bv('hx%d' % i, 8)
+                ctx.assume(z3.Or(z3.And(z3.UGE(hb, 0x30), z3.ULE(hb, 0x39)), z3.And(z3.UGE(hb, 0x61), z3.ULE(hb, 0x66))))
+                hexd.append(Int('u8', hb))
+            tail = uri_bytes(ctx, 'tl', 1, True)
+            for e in tail:
+                ctx.assume(z3.And(e.v != 0x26, e.v != 0x3D))
+            blob = conc_bytes('%') + hexd + [Int('u8', b0), Int('u8', b1)] + tail
+            if where == 'path':
+                rq = Req('GET', conc_bytes('/p') + blob, None, base + [('authorization', conc_bytes(GOOD_AUTHZ))])
+                return rq, pipeline(m, rq)
+            if where == 'query':
+                rq = Req('GET', b'/', conc_bytes('k=') + blob, base + [('authorization', conc_bytes(GOOD_AUTHZ))])
+                return rq, pipeline(m, rq)
+            rq = Req('POST', b'/', None, base + [('content-type', conc_bytes(FORM)), ('authorization', conc_bytes(GOOD_AUTHZ))], conc_bytes('k=') + blob)
+            return rq, pipeline(m, rq, options(False, True))
         if kind == 'fold-contract':
             m.x_uri_build_may_fail = True
             rq = Req('POST', b'/', b'x=1', base + [('content-type', conc_bytes(FORM)), ('authorization', conc_bytes(GOOD_AUTHZ))], b'a=1')
@@ -263,6 +290,10 @@ def run_shape(prog, shape, tier, seed, res):
         if pr.kind == 'panic':
             sat, model = ctx.satisfiable()
             inp = {'shape': list(shape), 'panic': pr.value.msg}
+            if sat and getattr(ctx, 'x_rq', None):
+                rq_, opts_ = ctx.x_rq
+                inp['request'] = rq_.to_json(model)
+                inp['options'] = {'s3': bool(opts_.fields[0]), 'url_encode_form': bool(opts_.fields[1])} if opts_ is not None else {'s3': False, 'url_encode_form': False}
             ev = [e for e in ctx.events if e and e[0] == 'uri_build_failed_by_contract']
             if ev:
                 inp['contract'] = 'http::uri::Builder::build returned Err (documented for > 65534 bytes)'
@@ -293,6 +324,12 @@ def replay_finding(rp, f):
                               opts={'s3': False, 'url_encode_form': True})
         res = nat.get('result', {})
         return 'panic' in res, {'native': {k: (v if k != 'ok' else 'ok') for k, v in res.items()}, 'witness': 'form body of %d bytes' % len(big)}
+    if 'request' in inp:
+        nat = native_validate(rp, inp['request'], 'us-east-1', 'service', T0, provider={'result': {'signing_key_hex': '00' * 32}}, opts=inp.get('options'))
+        res = nat.get('result', {})
+        if 'bad_input' in nat:
+            return False, {'native': nat, 'note': 'the http crate does not admit this request'}
+        return 'panic' in res, {'native': res.get('panic', res.get('err', {}).get('kind', 'ok'))}
     return False, {'note': 'no generic native replay for this shape; panic message: %s' % inp.get('panic')}
 
 
@@ -372,7 +409,8 @@ def bounds(tier):
             'bytes after the algorithm, credentials of <= %d arbitrary bytes (both carriers), date strings of <= %d arbitrary bytes through X-Amz-Date '
             'header, Date header and X-Amz-Date parameter, content types of <= %d and charset labels of <= %d arbitrary bytes with folding on, %s '
             'WHATWG labels of the encoding crate, path / query of <= %d arbitrary URI bytes (both modes), X-Amz-SignedHeaders / -Signature / -Token / '
-            '-Algorithm values of <= 3 arbitrary bytes, folded form bodies of 3 arbitrary bytes, the URI rebuild by contract; builders: every subset of '
+            '-Algorithm values of <= 3 arbitrary bytes, folded form bodies of 3 arbitrary bytes, malformed escapes next to a 2-byte UTF-8 scalar in path / query / '
+            'form body, the URI rebuild by contract; builders: every subset of '
             'fields; error conversions and tables; canonicalisers on <= %d bytes; validate_signature + Debug on arbitrary short credentials; '
             'Kani K1 (from_str, all lengths/capacities) and K4 (byte kernels)' % (
                 3 if q else 5, 3 if q else 4, 3 if q else 5, 4 if q else 6, 3 if q else 4, 2 if q else 3, 'every 8th of the' if q else 'all',
